@@ -1,6 +1,9 @@
 from plasTeX.Base.LaTeX.Quotations import verse
 
-verse.args = '[ width:nox ]'
+# (a variant of the standard environment, which keeps its own arguments
+# for the documents that do not load this package)
+class verse(verse):
+    args = '[ width:nox ]'
 
 class altverse(verse):
     pass
